@@ -17,4 +17,89 @@ theorem gen_number_eq (w bits : Nat) (h : F64.isNaN bits = false) :
   unfold NanBox.number nanbox_number
   simp [h]
 
+theorem decide_ne_eq_bne (a b : Nat) : decide (a ≠ b) = (a != b) := by
+  by_cases h : a = b <;> simp [h]
+
+/-- strum's `ErrorCode::from_repr(x).unwrap_or(Unknown)` over the regenerated discriminants is the
+    model's `errorCodeOf` -/
+theorem gen_errorCode_eq (x : Nat) : errorCodeFromRepr x = NanBox.errorCodeOf x := by
+  unfold errorCodeFromRepr NanBox.errorCodeOf
+  have hU : ErrorCode_Unknown = 7 := by decide
+  have hany : (ErrorCode_table.any fun p => p.2 == x) = true ↔ x ≤ 7 := by
+    simp only [ErrorCode_table, ErrorCode_DecodeError, ErrorCode_NotAnObject, ErrorCode_ByteArrayOutOfBounds,
+      ErrorCode_ReadError, ErrorCode_NotAnArray, ErrorCode_IndexOutOfBounds, ErrorCode_NotIndexable,
+      ErrorCode_Unknown, List.any_cons, List.any_nil, Bool.or_false, Bool.or_eq_true, beq_iff_eq]
+    omega
+  by_cases hx : x < ErrorCode_Unknown
+  · rw [if_pos hx, if_pos (hany.2 (by omega))]
+  · rw [if_neg hx]
+    by_cases h7 : x = 7
+    · rw [if_pos (hany.2 (by omega)), h7, hU]
+    · rw [if_neg (fun h => h7 (by have := hany.1 h; omega))]
+
+theorem tagFromVal_some (t : Nat) (h : NanBox.knownTag t = true) : tagFromVal t = some t := by
+  unfold tagFromVal
+  rw [if_pos]
+  simp only [NanBox.knownTag, Bool.or_eq_true, beq_iff_eq] at h
+  simp only [Tag_table, List.any_cons, List.any_nil, Bool.or_false, Bool.or_eq_true, beq_iff_eq]
+  omega
+
+theorem tagFromVal_none (t : Nat) (h : NanBox.knownTag t = false) : tagFromVal t = none := by
+  unfold tagFromVal
+  rw [if_neg]
+  simp only [NanBox.knownTag, Bool.or_eq_false_iff, beq_eq_false_iff_ne] at h
+  simp only [Tag_table, List.any_cons, List.any_nil, Bool.or_false, Bool.or_eq_true, beq_iff_eq]
+  omega
+
+theorem and_pointer_mask_mod (w x : Nat) : (x &&& POINTER_MASK w) % 2 ^ w = x &&& POINTER_MASK w := by
+  apply Nat.mod_eq_of_lt
+  simp only [POINTER_MASK, VALUE_ENCODING_SIZE, Nat.one_shiftLeft, Nat.and_two_pow_sub_one_eq_mod]
+  exact Nat.mod_lt _ (Nat.two_pow_pos w)
+
+/-- `NanBox::try_decode` (with `NanBox::tag` inlined), at every pointer width; on the 32-bit target a
+    `Val` is a `u64` -/
+theorem gen_try_decode_eq (w v : Nat) (hv : w = 32 → v < 2 ^ 64) :
+    nanbox_try_decode w v = NanBox.tryDecode w v := by
+  unfold nanbox_try_decode NanBox.tryDecode
+  split
+  · -- a double
+    by_cases hw : w = 32
+    · subst hw
+      have h0 : F64_OFFSET 32 = 0 := by decide
+      simp only [if_true, h0, Nat.shiftRight_zero, Nat.mod_eq_of_lt (hv rfl)]
+    · simp only [if_neg hw]
+  · simp only [and_pointer_mask_mod]
+    generalize ((v &&& PAYLOAD_MASK w) >>> VALUE_SIZE w) = t
+    cases hk : NanBox.knownTag t
+    · rw [tagFromVal_none t hk]
+      simp only [NanBox.knownTag, Bool.or_eq_false_iff, beq_eq_false_iff_ne] at hk
+      obtain ⟨⟨⟨⟨⟨⟨h1, h2⟩, h3⟩, h4⟩, h5⟩, h6⟩, h7⟩ := hk
+      simp only [if_neg h1, if_neg h2, if_neg h3, if_neg h4, if_neg h5, if_neg h6, if_neg h7]
+    · rw [tagFromVal_some t hk]
+      simp only [gen_errorCode_eq]
+      simp only [NanBox.knownTag, Bool.or_eq_true, beq_iff_eq] at hk
+      by_cases h2 : t = Tag_Bool
+      · simp only [if_pos h2]
+        congr 2
+        exact decide_ne_eq_bne _ _
+      · simp only [if_neg h2]
+        by_cases h1 : t = Tag_Null
+        · simp only [if_pos h1]
+        · simp only [if_neg h1]
+          by_cases h3 : t = Tag_Number
+          · simp only [if_pos h3]
+          · simp only [if_neg h3]
+            by_cases h6 : t = Tag_Array
+            · simp only [if_pos h6]
+            · simp only [if_neg h6]
+              by_cases h4 : t = Tag_String
+              · simp only [if_pos h4]
+              · simp only [if_neg h4]
+                by_cases h5 : t = Tag_Object
+                · simp only [if_pos h5]
+                · simp only [if_neg h5]
+                  by_cases h7 : t = Tag_Error
+                  · simp only [if_pos h7]
+                  · exfalso; omega
+
 end SfVerif
